@@ -353,6 +353,7 @@ class Spec(PropSpec):
         "TCP sequence numbers are abstracted: the harness builds acceptable segments from the verif-hooks socket listing; retransmission is switched off (retx_threshold = u32::MAX); streams carry no application data besides the probes",
         "a clean close (FIN exchange) of an established stream is outside this model (C13); scripts close streams abortively (unread data) and a case is compared only up to the first clean close",
         "SO_REUSEADDR / SO_REUSEPORT are not settable through the shim (set_option panics), so every overlap is a conflict",
+        "the oracle treats a dropped stream as neither live nor dead until both ends are dropped, no segment of it was lost or forged and a pump ran to silence; observations made before an implementation panic are kept and judged",
     ]
 
     def gen_cases(self, ctx):
